@@ -37,7 +37,16 @@ func (self ValueObject) Display() (string, *Interrupt) {
 }
 
 func (self ValueObject) IsEqual(other Value) (bool, *Interrupt) {
+	if other.Kind() != self.Kind() {
+		return false, nil
+	}
+
 	otherObj := other.(ValueObject)
+
+	// both must have the same fields, not only the ones of `self`
+	if len(otherObj.FieldsInternal) != len(self.FieldsInternal) {
+		return false, nil
+	}
 
 	for key, value := range self.FieldsInternal {
 		otherValue, found := otherObj.FieldsInternal[key]
